@@ -2,6 +2,7 @@ package mc
 
 import (
 	"cmp"
+	"os"
 	"runtime"
 	"sort"
 	"unsafe"
@@ -70,4 +71,28 @@ func LiveThreads() []ThreadInfo {
 		out = append(out, ThreadInfo{ID: u.ID, Name: u.Name, Pending: k})
 	}
 	return out
+}
+
+func init() {
+	// GOMC_MAPORDER selects a member of the iteration-order family for every instrumented map
+	// range of a process that does not run under the explorer (the generator plugin).
+	switch v := os.Getenv("GOMC_MAPORDER"); {
+	case v == "rev":
+		MapOrder = func(site string, n int) []int {
+			p := make([]int, n)
+			for i := range p {
+				p[i] = n - 1 - i
+			}
+			return p
+		}
+	case len(v) > 3 && v[:3] == "rot":
+		k := int(v[3] - '0')
+		MapOrder = func(site string, n int) []int {
+			p := make([]int, n)
+			for i := range p {
+				p[i] = (i + k) % n
+			}
+			return p
+		}
+	}
 }
